@@ -515,8 +515,15 @@ void lang_oracle(const std::string& oracle, const std::string& site, const TA& g
 	if (!e) violation(oracle, site, what + ": language differs from the reference\n  result   : " + mdl::to_lit(got) + "\n  reference: " + mdl::to_lit(want));
 }
 
+// see ops_fa.cc: results fed back into products grow over a history; very large operands are skipped
+bool too_big(const TA& a, const TA* b = nullptr) {
+	size_t na = a.states().size() + a.rules.size(), nb = b ? b->states().size() + b->rules.size() : 1;
+	return na > 400 || nb > 400 || na * nb > 20000;
+}
+
 void op_union(const Step& s) {
 	ETH& a = H(s, 0); ETH& b = H(s, 1); if (!same_alpha(a, b)) throw Skip();
+	if (too_big(a.model, &b.model)) throw Skip();
 	long mode = mod(s.arg(2), 4); StateMap m1, m2;
 	api_begin();
 	if (mode == 3) { ET first = ET::Union(*a.aut, *b.aut, &m1, &m2); mode = 1; }     // maps pre-filled by an earlier identical call
@@ -553,6 +560,7 @@ struct OffsetF : public VATA::AbstractReindexF {
 
 void op_union_disj(const Step& s) {
 	ETH& a = H(s, 0); ETH& b = H(s, 1); if (!same_alpha(a, b)) throw Skip();
+	if (too_big(a.model, &b.model)) throw Skip();
 	TA ma = a.model, mb = b.model; int al = a.alpha;
 	// the client makes the state sets disjoint first, as the contract requires
 	std::set<long> sa = ma.states(), sb = mb.states(); bool disjoint = true;
@@ -598,6 +606,7 @@ void check_product_map(const std::string& site, const TA& ma, const TA& mb, cons
 
 void do_isect(const Step& s, bool bu) {
 	ETH& a = H(s, 0); ETH& b = H(s, 1); if (!same_alpha(a, b)) throw Skip();
+	if (too_big(a.model, &b.model)) throw Skip();
 	long mode = mod(s.arg(2), 3); VATA::AutBase::ProductTranslMap pm;
 	TA ma = a.model, mb = b.model; int al = a.alpha;
 	const std::string site = bu ? "et_isect_bu" : "et_isect";
@@ -1020,6 +1029,7 @@ int run_incl(const ET& a, const ET& b, long sel, long via) {
 
 void op_incl(const Step& s) {
 	ETH& a = H(s, 0); ETH& b = H(s, 1); if (!same_alpha(a, b)) throw Skip();
+	if (a.model.states().size() > 40 || b.model.states().size() > 40 || too_big(a.model, &b.model)) throw Skip();
 	long sel = mod(s.arg(2), N_SEL), via = (s.arg(3) & 1) | (sel < 10 ? (sel & 1) : 0);
 	if (s.arg(3) == 2 && sel == 0) via = 2;
 	const std::string site = std::string("et_incl:") + SEL_NAMES[sel] + (via == 2 ? ":default-overload" : via ? ":cli" : ":api");
@@ -1051,6 +1061,7 @@ void op_incl(const Step& s) {
 // all eight implemented selections on one pair, in a drawn order: they must agree
 void op_incl_all(const Step& s) {
 	ETH& a = H(s, 0); ETH& b = H(s, 1); if (!same_alpha(a, b)) throw Skip();
+	if (a.model.states().size() > 40 || b.model.states().size() > 40 || too_big(a.model, &b.model)) throw Skip();
 	Rng r(uint64_t(s.arg(2)) + 37); std::vector<long> order = {0, 1, 2, 3, 4, 5, 6, 7};
 	for (size_t i = order.size(); i > 1; --i) std::swap(order[i - 1], order[r.below(i)]);
 	int want = mdl::incl(a.model, b.model); int first = -1; long firstsel = 0;
